@@ -12,6 +12,7 @@ import (
 func init() {
 	env.Register("C08_OneMessage", C08_OneMessage)
 	env.Register("C08_FutureMessage", C08_FutureMessage)
+	env.Register("C08_NotInCommittee", C08_NotInCommittee)
 }
 
 // C08_FutureMessage: a symbolic PREPREPARE / PREPARE / COMMIT arrives while the node is at height 1; the node
@@ -266,4 +267,49 @@ func C08_OneMessage() {
 			env.Assert("C08.VC.proof", ref.proofOK(prf, H, hdr.view))
 		}
 	}
+}
+
+// C08_NotInCommittee: the node is not a member of this height's committee (it follows the chain by sync only).
+// One fully symbolic PREPREPARE / PREPARE / COMMIT / proof-less VIEW_CHANGE, for the current or a future height,
+// must not influence it in any way and must not panic out of the filter chain; afterwards a sync still takes effect
+// and drains the future cache without a panic.
+func C08_NotInCommittee() {
+	kind := env.Param("kind")
+	w := paramWeights()
+	committee5 := vCommittee(5, append(append([]uint64{}, w...), 1))
+	wd := &vWorld{reg: stub.NewRegistry(), me: 4, H: 1}
+	wd.net = newVNet(wd.reg, committee5[:4], vInstance, nil)
+	wd.ref = newRefCommittee(w)
+	n := newVNode(wd.reg, committee5, 4, vInstance)
+	n.mem.Committee = committee5[:4]
+	n.commitErr = true
+	wd.n = n
+	n.start(nil, nil, true)
+	hdr := newSymRef("m")
+	var raw *interfaces.ConsensusRawMessage
+	switch kind {
+	case 0:
+		snd := newSymSender(wd.reg, "s", uint64(hdr.height), hdr.raw)
+		c := (&protocol.PreprepareContentBuilder{SignedHeader: hdr.b, Sender: snd.b}).Build()
+		raw = interfaces.NewPreprepareMessage(c, symBlock("blk")).ToConsensusRawMessage()
+	case 1:
+		raw = symPrepareRaw(wd, "m")
+	case 2:
+		raw, _, _, _ = symCommit(wd, "m")
+	case 3:
+		raw = symViewChangeRaw(wd, "m", -1)
+	}
+	s0 := n.snap()
+	pn := env.Catch(func() { n.m.worker.handleRawMessage(raw) }) // the worker's real entry point (with its recovery)
+	env.Assert("C08.outsider_node.no_panic", pn == 0)
+	env.Assert("C08.outsider_node.no_influence", !n.influenced(s0))
+	b := env.NondetU64("sync_h")
+	env.Assume(b >= 1 && b < 1<<62)
+	s1 := n.snap()
+	pn2 := env.Catch(func() { wd.sync(&stub.Block{H: primitives.BlockHeight(b)}) })
+	env.Assert("C08.outsider_node.sync_no_panic", pn2 == 0)
+	env.Assert("C08.outsider_node.synced", uint64(n.m.state.Height()) == b+1)
+	t := n.snap()
+	env.Assert("C08.outsider_node.no_influence", t.events == s1.events && t.out == s1.out && t.commits == s1.commits)
+	env.Reach("C08.outsider_node.done")
 }
